@@ -24,7 +24,8 @@ R1c locate paths: on every path of _load_trajectory that reaches a record read
 R2  one increment per successful add: on every normal path through `add` the
     next-index counter is incremented exactly once (`+= 1`, or stored as the
     saved entry value plus one), and the returned value is a copy of the counter
-    taken before the increment.  Refused addition: every statement of add that
+    taken before the increment; the write is handed that index and - when the
+    trajectory is passed along - the trajectory being added.  Refused addition: every statement of add that
     puts the trajectory into the cache (element store, setdefault / update /
     __setitem__, or a method of the store that does so) is a point where a
     store without a file refuses - the cache's popitem() raises instead of
@@ -43,13 +44,31 @@ R3  length: every value __len__ can return is classified - the sum of the
     refusals over the members of the file-mode enum).  APPEND initialises the
     counter from the same dimension.
 R4  eviction refusal, per site: every path to the base-class popitem() has seen
-    the refusal flag unset and the set flag raises; the flag becomes true only
-    in the store's constructor under "no base file" (guarded store, the
-    condition itself as value, or the cache's constructor parameter with
-    default False), and false only as the default, under "has a base file", or
-    in `save` at a point from which no trajectory write is reachable.
-R7  file-link typestate (C08-R5): no list operation dereferences file-only
-    state on a store that has no file attached.
+    the refusal flag unset and the set flag raises (a refusal raised after the
+    base-class popitem() has already removed the entry is reported as such);
+    the flag becomes true only in the store's constructor under "no base file"
+    (guarded store - the guard may be spelt through a property of the store
+    that only names the condition -, the condition itself as value, or a
+    parameter of the cache's constructor / of a factory of the cache that is
+    stored into the flag, default False), and false only as the default, under
+    "has a base file", or in `save` at a point from which no trajectory write
+    is reachable.
+R7  file-link typestate.  The two states in which the constructor leaves a
+    store without a file - *in memory* (CREATE, no base file) and *creation
+    pending* (CREATE with a base file, before the first successful addition) -
+    are computed by evaluating the constructor's stores.  Every public
+    operation is walked on its CFG in each state (tests with a definite value
+    in the state - attributes as the constructor left them, properties that
+    name a condition opened, locals that can hold one constant only - are
+    followed on that side only; loops over an empty container are not entered;
+    an edge that attaches files leaves the state; self-calls are followed):
+    no path reaches `self._nc[<fixed key>]`, `self.index_group.<attr>` or an
+    `assert` that is false in the state (the loader's `assert npoints is not
+    None` with no file to read from).  `indexable` counts as still None while
+    creation is pending only if every store of it leaves the state or is
+    undone before the method is left.  A store that was closed is outside the
+    histories of the property (it is reopened, not used) and is not a state
+    here.
 R5  cache-key discipline: every store of a loaded trajectory into the cache is
     keyed by the requested index; every return of __getitem__ is the cache
     entry of the requested index on a path that established membership (or a
@@ -72,7 +91,8 @@ R6  iteration yields store[0], store[1], …: every value __iter__ can return is
     generator expression over range(len(store))).  The store as its own
     iterator shares one cursor; an iterator over the cache mapping yields cache
     order (read order) and only resident items.  `save` counts the trajectories
-    before the files exist and writes index i at position i.
+    before the files exist and writes index i at position i (a write that is
+    handed the trajectory gets the cache entry / store item of that same i).
 """
 
 from __future__ import annotations
@@ -101,9 +121,9 @@ def run(ctx):
     prog = ctx.prog
     m = prog.module(STORE)
     # R7: the list operations (add / sync / close / index / iterate / len) work on a store that has no file attached
-    # yet: file-only state is dereferenced only behind a test that files are attached (typestate rule of C08)
-    from .c08 import rule_linked
-    rule_linked(ctx, m, rule='C07-R7')
+    # yet - in memory, or created with a base file before the first successful addition -: file-only state is
+    # dereferenced (and the loader's assertion about loaded data reached) only behind a test that files are attached
+    rule_link_state(ctx, prog, m, rule='C07-R7')
     cls = m.cls('TrajectoryStore')
     add = m.func('TrajectoryStore.add')
 
@@ -241,6 +261,20 @@ def run(ctx):
             ctx.ob('C07-R2', add, f'written at {norm(c.args[0]) if c.args else "?"}', ok,
                    'same value as returned' if ok else
                    'the trajectory is written at a different index than the one returned', line=c.lineno)
+            # a write that is handed the trajectory as well writes the one being added (or the cache entry under the
+            # returned index), not another one
+            added = add.params[1] if len(add.params) > 1 else None
+            for a in list(c.args[1:]) + [k.value for k in c.keywords if k.arg is not None]:
+                if isinstance(a, ast.Name) and a.id != added:
+                    a = single_def_value(add.node, a.id) or a
+                if norm(a) in ret_names:
+                    continue
+                mine = _is_name(a, added) or (isinstance(a, ast.Subscript) and _is_cache(a.value)
+                                              and norm(a.slice) in ret_names)
+                ctx.ob('C07-R2', add, f'trajectory written: {norm(a)[:50]}', mine,
+                       'the trajectory being added' if mine else
+                       f'the write at the new index is handed `{norm(a)[:50]}`, not the trajectory being added: index n-1 '
+                       f'holds other data in the file than the n-th trajectory added', line=c.lineno)
 
     # a full in-memory store refuses the addition where the trajectory is put into the cache
     rule_refusal(ctx, prog, m, add, g, inc_nodes, dom)
@@ -1268,7 +1302,26 @@ def rule_save(ctx, prog, m):
     rng = isinstance(it, ast.Call) and call_name(it) == 'range' and not it.keywords and (
         len(it.args) == 1 or (len(it.args) == 2 and isinstance(it.args[0], ast.Constant) and it.args[0].value == 0))
     writes = [c for c in calls_in(lp) if call_name(c).endswith('._write_trajectory')]
-    own = isinstance(lp.target, ast.Name) and all(len(c.args) == 1 and _is_name(c.args[0], lp.target.id) for c in writes) \
+
+    def own_args(c):
+        """the write is handed the loop index - and, when the trajectory is passed along, the cache entry (or store
+        item) of that same index, directly or through a local bound once to it"""
+        vals = list(c.args) + [k.value for k in c.keywords]
+        if any(isinstance(a, ast.Starred) for a in c.args) or any(k.arg is None for k in c.keywords):
+            return False
+        n_idx = 0
+        for a in vals:
+            if isinstance(a, ast.Name) and a.id != lp.target.id:
+                a = single_def_value(sv.node, a.id) or a
+            if _is_name(a, lp.target.id):
+                n_idx += 1
+            elif isinstance(a, ast.Subscript) and _is_name(a.slice, lp.target.id) \
+                    and (recv_attr(a.value, CACHE_ATTR, recv) or _is_name(a.value, recv)):
+                pass
+            else:
+                return False
+        return n_idx == 1
+    own = isinstance(lp.target, ast.Name) and all(own_args(c) for c in writes) \
         and all(stmt_of(c) in lp.body for c in writes)
     if not rng:
         ctx.undecided('C07-R6', sv, norm(it)[:60], 'the write loop does not run over range(n)')
@@ -1305,42 +1358,168 @@ def rule_save(ctx, prog, m):
 FLAG = 'exception_on_eviction'
 
 
+def property_value(cls, attr: str):
+    """(return expression, receiver name) of `cls.<attr>` when that is a @property (found through the MRO) whose body is
+    a single `return <expression>` - i.e. a name for a condition; None otherwise"""
+    fi = cls.find_method(attr) if cls is not None else None
+    if fi is None or not any(d.split('.')[-1] in ('property', 'cached_property') for d in fi.decorators()):
+        return None
+    body = [b for b in fi.node.body if not (isinstance(b, ast.Expr) and isinstance(b.value, ast.Constant)
+                                           and isinstance(b.value.value, str))]
+    if len(body) != 1 or not isinstance(body[0], ast.Return) or body[0].value is None or not fi.params:
+        return None
+    return body[0].value, fi.params[0]
+
+
+def expand_properties(cls, e: ast.AST, recv: str, depth: int = 3) -> ast.AST:
+    """e with every read `<recv>.<p>` of a single-expression property p of cls replaced by the property's expression
+    over the same receiver (any heap epoch of the receiver name is kept): `self.in_memory` is `self.base_file is None`
+    when that is all the property returns"""
+    if cls is None or depth <= 0:
+        return e
+
+    class T(ast.NodeTransformer):
+        def visit_Attribute(self, n):
+            self.generic_visit(n)
+            if isinstance(n.ctx, ast.Load) and isinstance(n.value, ast.Name) and _base_id(n.value.id) == recv:
+                pv = property_value(cls, n.attr)
+                if pv is not None:
+                    body, r = copy.deepcopy(pv[0]), pv[1]
+                    for x in ast.walk(body):
+                        if isinstance(x, ast.Name) and x.id == r:
+                            x.id = n.value.id
+                    return expand_properties(cls, body, recv, depth - 1)
+            return n
+    return T().visit(copy.deepcopy(e))
+
+
+def fact_through_properties(cls, st, text: str, recv: str):
+    """like st.fact(text), but a branch condition spelt with a property of the class counts as the condition the
+    property returns"""
+    p = st.fact(text)
+    if p is not None:
+        return p
+    for k, pol, e in st.facts:
+        k2, pol2, _ = canon_fact(expand_properties(cls, e, recv), pol)
+        if k2 == text:
+            return pol2
+    return None
+
+
 def rule_eviction(ctx, prog, m):
     """C07-R4, decided per site: the cache refuses before it evicts; the refusal flag is switched on exactly for a
     store without a base file (whether by a guarded store, by storing the condition itself or through the cache's
-    constructor) and switched off only by `save`, after every trajectory was written."""
+    constructor / a factory of the cache that hands the value on) and switched off only by `save`, after every
+    trajectory was written."""
     cache = m.cls('TrajectoryCache')
+    store_cls = m.cls('TrajectoryStore')
     pop, cinit = cache.methods.get('popitem'), cache.methods.get('__init__')
     if pop is None:
         ctx.undecided('C07-R4', (m.relpath, 'TrajectoryCache'), 'popitem', 'method not found')
     r = pop.params[0]
+
+    def is_evict(n):
+        return isinstance(n, ast.Call) and isinstance(n.func, ast.Attribute) and n.func.attr == 'popitem'
     try:
-        ps = Sym(prog, pop).run(lambda n: isinstance(n, ast.Call) and isinstance(n.func, ast.Attribute)
-                                and n.func.attr == 'popitem')
+        ps = Sym(prog, pop).run(is_evict)
+        whole = Sym(prog, pop).run()
     except SymUndecided as e:
         ctx.undecided('C07-R4', pop, 'popitem', str(e))
     ctx.floor('C07-R4', len(ps.hits), 1, 'evictions (calls of the base class popitem)')
-    okp = all(h.state.fact(f'{r}.{FLAG}') is False for h in ps.hits) \
-        and any(st.fact(f'{r}.{FLAG}') is True for st, exc, stmt, _ in ps.raises)
+    flag_txt = canon_fact(ast.parse(f'{r}.{FLAG}', mode='eval').body, True)[0]
+
+    def flag_on(st):
+        return fact_through_properties(cache, st, flag_txt, r)
+    okp = all(flag_on(h.state) is False for h in ps.hits) \
+        and any(flag_on(st) is True for st, exc, stmt, _ in ps.raises)
+    why_bad = ('the cache can evict from an in-memory store (the trajectory would be lost): an entry is removed on a path '
+               'that did not test the refusal flag first')
+    line = None
+    if not okp:
+        # the refusal itself comes too late: a path that raises under the set flag has already called the base-class
+        # popitem(), so the least-recently-used entry is gone when the addition is refused
+        late = [(st, stmt) for st, exc, stmt, _ in whole.raises if flag_on(st) is True
+                and any(kind == 'call' and is_evict(node) for kind, node, e, fi in st.trace)]
+        if late:
+            ev = next(node for kind, node, e, fi in late[0][0].trace if kind == 'call' and is_evict(node))
+            line = ev.lineno
+            why_bad = (f'`{norm(ev)}` (line {ev.lineno}) removes the least-recently-used entry BEFORE `{r}.{FLAG}` is tested '
+                       f'and the refusal is raised (line {late[0][1].lineno}): when an in-memory store refuses an addition, '
+                       f'an earlier, successfully added trajectory has already been dropped from the cache - its only '
+                       f'storage - so len(store) falls below the number of successful additions and that index raises '
+                       f'IndexError')
     ctx.ob('C07-R4', pop, 'refusal precedes the eviction', okp,
-           'every path to the base-class popitem() has seen the flag unset; the flag set raises' if okp else
-           'the cache can evict from an in-memory store (the trajectory would be lost): an entry is removed on a path '
-           'that did not test the refusal flag first')
+           'every path to the base-class popitem() has seen the flag unset; the flag set raises' if okp else why_bad,
+           line=line)
 
     # ---- where the flag gets its value ---------------------------------------------------------------------------
     sinit = m.func('TrajectoryStore.__init__')
+    # carriers: (function, parameter) whose value ends up in the flag - the cache constructor's parameter that is
+    # stored into the flag, and parameters of the cache's own factories that hand it on to a carrier
+    carriers: dict[tuple[str, str], tuple[object, str]] = {}
+    if cinit is not None:
+        for t, st, how in stores_to(cinit.node):
+            if isinstance(t, ast.Attribute) and t.attr == FLAG and how in ('assign', 'ann') \
+                    and isinstance(st.value, ast.Name) and st.value.id in cinit.params[1:]:
+                carriers[(cinit.qualname, st.value.id)] = (cinit, st.value.id)
+
+    def carrier_args(fn, c):
+        """[(carrier function, parameter, argument expression)] for a call that constructs the cache / calls a factory"""
+        out = []
+        callee = None
+        k = resolve_class_call(prog, fn, c)
+        if k is not None and k.name == cache.name:
+            callee = cinit
+        elif isinstance(c.func, ast.Name) and fn.cls is cache and fn.params and c.func.id == fn.params[0] \
+                and any(d.split('.')[-1] == 'classmethod' for d in fn.decorators()):
+            callee = cinit          # `cls(...)` inside a factory of the cache
+        else:
+            try:
+                callee = resolve_call(prog, fn, c)
+            except Exception:
+                callee = None
+        if callee is None:
+            return out
+        if callee is cinit and kwarg(c, FLAG) is not None and (cinit.qualname, FLAG) not in carriers:
+            out.append((callee, FLAG, kwarg(c, FLAG)))      # **kwargs constructor that is given the flag by name
+        a = callee.node.args
+        pos = [x.arg for x in a.posonlyargs + a.args]
+        if callee.cls is not None and not any(d.split('.')[-1] == 'staticmethod' for d in callee.decorators()):
+            pos = pos[1:]
+        for (q, par), (cf, _) in list(carriers.items()):
+            if cf != callee:
+                continue
+            v = arg_or_kw(c, pos.index(par), par) if par in pos else kwarg(c, par)
+            if v is not None:
+                out.append((callee, par, v))
+        return out
+
+    changed = True
+    while changed:
+        changed = False
+        for fn in m.functions.values():
+            if fn.cls is not cache or fn == cinit:
+                continue
+            for c in calls_in(fn.node):
+                for callee, par, v in carrier_args(fn, c):
+                    if isinstance(v, ast.Name) and v.id in fn.params and single_def_value(fn.node, v.id) is None \
+                            and (fn.qualname, v.id) not in carriers:
+                        carriers[(fn.qualname, v.id)] = (fn, v.id)
+                        changed = True
+
     sites = []      # (function, node to stop at, value expression, how)
     for fn in m.functions.values():
         for t, st, how in stores_to(fn.node):
             if isinstance(t, ast.Attribute) and t.attr == FLAG and how in ('assign', 'ann', 'aug'):
                 sites.append((fn, st, st.value, 'store'))
         for c in calls_in(fn.node):
-            k = resolve_class_call(prog, fn, c)
-            if k is not None and k.name == cache.name:
-                v = kwarg(c, FLAG)
-                if v is not None:
-                    sites.append((fn, c, v, 'constructor'))
-    ctx.floor('C07-R4', len(sites), 3, 'stores of exception_on_eviction')
+            for callee, par, v in carrier_args(fn, c):
+                # (a factory's own parameter handed on is judged by its default here and by its value where the
+                # factory is called)
+                sites.append((fn, c, v, 'constructor'))
+    # (at least the default in the cache's constructor and the clearing in save(); that something arms the flag for a
+    # store without a base file is its own obligation below)
+    ctx.floor('C07-R4', len(sites), 2, 'stores of exception_on_eviction')
     armed = False
     for fn, node, val, how in sites:
         try:
@@ -1349,22 +1528,25 @@ def rule_eviction(ctx, prog, m):
             ctx.undecided('C07-R4', fn, norm(node)[:60], str(e))
         if not hits:
             ctx.undecided('C07-R4', fn, norm(node)[:60], 'site not reached by the path enumeration')
-        what = f'{norm(node)[:70]}' if how == 'store' else f'{cache.name}(…, {FLAG}={norm(val)[:40]})'
+        what = f'{norm(node)[:70]}' if how == 'store' else f'{call_name(node)}(…, {FLAG} := {norm(val)[:40]})'
         verdicts = []
         for h in hits:
             v = h.ev(val)
-            no_base = canon_fact(h.ev(ast.parse(f'{fn.params[0]}.base_file is None', mode='eval').body), True) \
-                if fn.params else None
-            in_memory = h.state.fact(no_base[0]) if no_base else None      # True: this path has no base file
-            if fn.cls is cache and fn.name == '__init__':
-                # default / constructor parameter
+            recv = fn.params[0] if fn.params else None
+            no_base = canon_fact(h.ev(ast.parse(f'{recv}.base_file is None', mode='eval').body), True) if recv else None
+            # True: this path has no base file (a condition spelt through a property of the store counts as what the
+            # property returns)
+            in_memory = fact_through_properties(store_cls if fn.cls is store_cls else fn.cls, h.state, no_base[0], recv) \
+                if no_base else None
+            if fn.cls is cache and isinstance(v, ast.Name) and (fn.qualname, v.id) in carriers:
+                # default / constructor parameter (of the cache or of a factory that hands it on)
+                d = _param_default(fn, v.id)
+                ok = isinstance(d, ast.Constant) and d.value is False
+                why = f'constructor parameter `{v.id}` (default False)' if ok else \
+                    f'constructor parameter `{v.id}` does not default to False'
+            elif fn.cls is cache and fn.name == '__init__':
                 if isinstance(v, ast.Constant) and v.value is False:
                     ok, why = True, 'default'
-                elif isinstance(v, ast.Name) and v.id in fn.params:
-                    d = _param_default(fn, v.id)
-                    ok = isinstance(d, ast.Constant) and d.value is False
-                    why = f'constructor parameter `{v.id}` (default False)' if ok else \
-                        f'constructor parameter `{v.id}` does not default to False'
                 else:
                     ctx.undecided('C07-R4', fn, what, 'initial value of the flag not recognised')
             elif isinstance(v, ast.Constant) and v.value is True:
@@ -1387,7 +1569,7 @@ def rule_eviction(ctx, prog, m):
                 else:
                     ok, why = False, 'eviction refusal cleared outside save()'
             else:
-                k = canon_fact(v, True)
+                k = canon_fact(expand_properties(fn.cls, v, recv) if recv else v, True)
                 if no_base is not None and k[0] == no_base[0] and fn == sinit:
                     ok = k[1] == no_base[1]
                     armed = armed or ok
@@ -1398,9 +1580,16 @@ def rule_eviction(ctx, prog, m):
             verdicts.append((ok, why))
         ok, why = next((v for v in verdicts if not v[0]), verdicts[0])
         ctx.ob('C07-R4', fn, what, ok, why, line=node.lineno)
+    dropped = []
+    if not armed and cinit is not None:
+        used = {x.id for x in walk_no_nested(cinit.node) if isinstance(x, ast.Name) and isinstance(x.ctx, ast.Load)}
+        dropped = [p_ for p_ in cinit.params[1:] if p_ not in used and not p_.startswith('_')
+                   and p_ not in {a.arg for a in (cinit.node.args.vararg, cinit.node.args.kwarg) if a is not None}]
     ctx.ob('C07-R4', sinit, 'an in-memory store refuses evictions', armed,
            'the constructor switches the refusal on when there is no base file' if armed else
-           'nothing switches the eviction refusal on for a store without a base file', nontrivial=False)
+           'nothing switches the eviction refusal on for a store without a base file'
+           + (f' (the cache constructor ignores its parameter `{dropped[0]}`: it is never stored into {FLAG})' if dropped else ''),
+           nontrivial=False)
 
 
 def _param_default(fn, name: str):
@@ -1413,6 +1602,685 @@ def _param_default(fn, name: str):
         if p.arg == name:
             return d
     return None
+
+
+# ---- R7: typestate of the file link ---------------------------------------------------------------------------------
+#
+# A store made by the constructor in CREATE mode has no file attached: either for good (no base file: *in memory*,
+# until save()) or until the first successful addition creates the files (base file given: *creation pending*).  The
+# two states are not assumed but computed: the constructor's stores (`self.x = <expr>` at the top level of __init__
+# and of the private helpers it calls unconditionally) are evaluated under `mode = CREATE, base_file = None` and
+# `mode = CREATE, base_file = <a path>`.  Each list operation is then walked on its CFG in each state: a branch whose
+# test has a definite value in the state (attributes as the constructor left them - properties that only name a
+# condition are opened -, locals that can only hold one constant on the feasible nodes) is followed on that side
+# only, a loop over an empty container is not entered, an edge that attaches files leaves the state.  What must not
+# be reachable: `self._nc[<fixed key>]`, `self.index_group.<attr>` and an `assert` that is false in the state.
+
+LINK_ATTRS = ('base_file', '_nc_files', '_nc', 'index_group', '_file_creation_pending')
+_UNKNOWN = type('Unknown', (), {'__repr__': lambda self: '?'})()
+
+
+class _SomeObject:
+    """a value that is certainly not None (a path that was given); nothing else is known about it"""
+    def __repr__(self):
+        return '<given>'
+
+
+class _Namespace(dict):
+    """an object whose attributes are known (the file-mode enum: member name -> member)"""
+
+
+def _value(e: ast.AST, env: dict, cls=None, recv: str = 'self'):
+    """value of e over an explicit environment {dotted name: value}; _UNKNOWN when it cannot be told.  Nothing from
+    the repository is run: constants, names, len / bool / list / iteration views of known containers, comparisons,
+    and / or / not (three-valued), conditional expressions."""
+    if isinstance(e, ast.Constant):
+        return e.value
+    if isinstance(e, (ast.Name, ast.Attribute)):
+        k = norm(e)
+        if k in env:
+            return env[k]
+        if isinstance(e, ast.Attribute) and isinstance(e.value, ast.Name) and e.value.id == recv and cls is not None:
+            pv = property_value(cls, e.attr)
+            if pv is not None:
+                return _value(expand_properties(cls, e, recv), env, None, recv) \
+                    if not any(norm(x) == k for x in ast.walk(pv[0])) else _UNKNOWN
+        if isinstance(e, ast.Attribute):
+            base = _value(e.value, env, cls, recv)
+            if isinstance(base, _Namespace) and e.attr in base:
+                return base[e.attr]
+        return _UNKNOWN
+    if isinstance(e, (ast.Tuple, ast.List, ast.Set)):
+        vs = [_value(x, env, cls, recv) for x in e.elts]
+        return _UNKNOWN if any(v is _UNKNOWN or isinstance(v, _SomeObject) for v in vs) \
+            or any(isinstance(x, ast.Starred) for x in e.elts) else tuple(vs)
+    if isinstance(e, ast.Dict) and not e.keys:
+        return {}
+    if isinstance(e, ast.UnaryOp) and isinstance(e.op, ast.Not):
+        t = _truth(e.operand, env, cls, recv)
+        return _UNKNOWN if t is None else not t
+    if isinstance(e, ast.BoolOp):
+        t = _truth(e, env, cls, recv)
+        return _UNKNOWN if t is None else t          # only used as a truth value
+    if isinstance(e, ast.IfExp):
+        t = _truth(e.test, env, cls, recv)
+        return _UNKNOWN if t is None else _value(e.body if t else e.orelse, env, cls, recv)
+    if isinstance(e, ast.Call) and not e.keywords:
+        cn = call_name(e)
+        if cn in ('list', 'dict', 'set', 'tuple') and not e.args:
+            return {} if cn == 'dict' else ()
+        if len(e.args) == 1 and cn in ('len', 'bool', 'list', 'tuple', 'sorted', 'iter', 'enumerate', 'reversed', 'set'):
+            v = _value(e.args[0], env, cls, recv)
+            if isinstance(v, (tuple, list, dict, set, frozenset, str)):
+                return len(v) if cn == 'len' else bool(v) if cn == 'bool' else tuple(v)
+            return _UNKNOWN
+        if isinstance(e.func, ast.Attribute) and e.func.attr in ('keys', 'values', 'items', 'copy') and not e.args:
+            v = _value(e.func.value, env, cls, recv)
+            if isinstance(v, (dict, tuple, list)) and not v:
+                return ()
+        return _UNKNOWN
+    if isinstance(e, ast.Compare) and len(e.ops) == 1:
+        a, b, op = _value(e.left, env, cls, recv), _value(e.comparators[0], env, cls, recv), e.ops[0]
+        if isinstance(op, (ast.In, ast.NotIn)):
+            if isinstance(b, (tuple, list, dict, set, frozenset)) and not b:
+                return isinstance(op, ast.NotIn)
+            if a is _UNKNOWN or b is _UNKNOWN or isinstance(a, _SomeObject) or not isinstance(b, (tuple, list, dict, set)):
+                return _UNKNOWN
+            return (a in b) == isinstance(op, ast.In)
+        if a is _UNKNOWN or b is _UNKNOWN:
+            return _UNKNOWN
+        if isinstance(op, (ast.Is, ast.IsNot, ast.Eq, ast.NotEq)):
+            if isinstance(a, _SomeObject) or isinstance(b, _SomeObject):
+                other = b if isinstance(a, _SomeObject) else a
+                if other is None:
+                    return isinstance(op, (ast.IsNot, ast.NotEq))
+                return _UNKNOWN
+            same = (a is b or (a == b and type(a) is type(b))) if isinstance(op, (ast.Is, ast.IsNot)) else a == b
+            return same == isinstance(op, (ast.Is, ast.Eq))
+        try:
+            return {ast.Lt: a < b, ast.LtE: a <= b, ast.Gt: a > b, ast.GtE: a >= b}[type(op)]
+        except (TypeError, KeyError):
+            return _UNKNOWN
+    return _UNKNOWN
+
+
+def _truth(e: ast.AST, env: dict, cls=None, recv: str = 'self'):
+    """True / False / None (unknown) for the truth value of e"""
+    if isinstance(e, ast.BoolOp):
+        ts = [_truth(v, env, cls, recv) for v in e.values]
+        if isinstance(e.op, ast.And):
+            return False if any(t is False for t in ts) else (True if all(t is True for t in ts) else None)
+        return True if any(t is True for t in ts) else (False if all(t is False for t in ts) else None)
+    if isinstance(e, ast.UnaryOp) and isinstance(e.op, ast.Not):
+        t = _truth(e.operand, env, cls, recv)
+        return None if t is None else not t
+    v = _value(e, env, cls, recv)
+    if v is _UNKNOWN or isinstance(v, _SomeObject):
+        return None
+    try:
+        return bool(v)
+    except Exception:
+        return None
+
+
+def link_states(ctx, prog, m, rule):
+    """{state name: (description, {`self.<attr>`: value})} of a store the constructor left without a file, computed
+    from the constructor's own stores"""
+    cls = m.cls('TrajectoryStore')
+    init = cls.methods.get('__init__')
+    mode_cls = m.classes.get('TrajectoryStore.FileMode')
+    if init is None or mode_cls is None or 'mode' not in init.params or 'base_file' not in init.params:
+        ctx.undecided(rule, (m.relpath, 'TrajectoryStore'), '__init__', 'constructor with mode / base_file not found')
+    members = list(mode_cls.class_assignments().keys())
+    if 'CREATE' not in members:
+        ctx.undecided(rule, init, 'FileMode', 'no CREATE member in the file-mode enum')
+    r = init.params[0]
+    out = {}
+    for sname, what, base in (('in memory', 'a store created in memory (no base file)', None),
+                              ('creation pending', 'a store created with a base file, before its first successful addition '
+                               '(the NetCDF files are only created then: nothing is attached yet)', _SomeObject())):
+        env: dict = {'mode': 'CREATE', 'base_file': base}
+        for pre in (f'{r}.FileMode', 'FileMode', f'{cls.name}.FileMode', 'cls.FileMode'):
+            env[pre] = _Namespace({x: x for x in members})
+
+        def run(fn, env, depth=0):
+            rr = fn.params[0] if fn.params else r
+
+            def bind(t, value, v):
+                if isinstance(t, ast.Attribute) and isinstance(t.value, ast.Name) and t.value.id == rr:
+                    env[f'{rr}.{t.attr}'] = v
+                elif isinstance(t, ast.Name):
+                    env[t.id] = v
+                elif isinstance(t, (ast.Tuple, ast.List)) and isinstance(value, (ast.Tuple, ast.List)) \
+                        and len(t.elts) == len(value.elts) and not any(isinstance(x, ast.Starred) for x in t.elts + value.elts):
+                    for x, y in zip(t.elts, value.elts):
+                        bind(x, y, _value(y, env, cls, rr))
+                else:
+                    havoc(t)
+
+            def havoc(node):
+                """whatever `node` stores is not known afterwards"""
+                for x in ast.walk(node):
+                    if isinstance(x, ast.Attribute) and isinstance(x.ctx, (ast.Store, ast.Del)) \
+                            and isinstance(x.value, ast.Name) and x.value.id == rr:
+                        env[f'{rr}.{x.attr}'] = _UNKNOWN
+                    elif isinstance(x, ast.Name) and isinstance(x.ctx, (ast.Store, ast.Del)):
+                        env[x.id] = _UNKNOWN
+
+            def block(stmts) -> bool:
+                """False when the block ends the function (return / raise)"""
+                for st in stmts:
+                    if isinstance(st, (ast.Assign, ast.AnnAssign)):
+                        if st.value is None:
+                            continue
+                        v = _value(st.value, env, cls, rr)
+                        for t in (st.targets if isinstance(st, ast.Assign) else [st.target]):
+                            bind(t, st.value, v)
+                    elif isinstance(st, ast.Expr) and isinstance(st.value, ast.Call):
+                        call(st.value)
+                    elif isinstance(st, ast.If):
+                        tt = _truth(st.test, env, cls, rr)
+                        if tt is None:
+                            havoc(st)
+                            if any(isinstance(x, ast.Return) for x in walk_no_nested(st)):
+                                # the function may end here: what the rest stores may or may not have happened
+                                before = dict(env)
+                                block(stmts[stmts.index(st) + 1:])
+                                for k in set(env) | set(before):
+                                    a_, b_ = env.get(k, _UNKNOWN), before.get(k, _UNKNOWN)
+                                    if not (a_ is b_ or (type(a_) is type(b_) and not isinstance(a_, _SomeObject) and a_ == b_)):
+                                        env[k] = _UNKNOWN
+                                return True
+                        elif not block(st.body if tt else st.orelse):
+                            return False
+                    elif isinstance(st, ast.Try):
+                        # (the constructor completing is what defines the state: no exception)
+                        if not (block(st.body) and block(st.orelse) and block(st.finalbody)):
+                            return False
+                    elif isinstance(st, (ast.With, ast.AsyncWith)):
+                        for it in st.items:
+                            if it.optional_vars is not None:
+                                havoc(it.optional_vars)
+                        if not block(st.body):
+                            return False
+                    elif isinstance(st, (ast.Return, ast.Raise)):
+                        return False
+                    else:
+                        havoc(st)
+                return True
+
+            def call(c):
+                if depth >= 2:
+                    return
+                try:
+                    callee = resolve_call(prog, fn, c)
+                except Exception:
+                    callee = None
+                if callee is None or callee.cls is not cls or not isinstance(c.func, ast.Attribute) \
+                        or not (isinstance(c.func.value, ast.Name) and c.func.value.id == rr) or not callee.params \
+                        or any(isinstance(a, ast.Starred) for a in c.args) or not all(k.arg for k in c.keywords):
+                    return
+                pn = callee.params[1:]
+                r2 = callee.params[0]
+                sub = {(r2 + k[len(rr):] if k.startswith(rr + '.') else k): v for k, v in env.items() if '.' in k}
+                for i, a in enumerate(c.args):
+                    if i < len(pn):
+                        sub[pn[i]] = _value(a, env, cls, rr)
+                for k in c.keywords:
+                    sub[k.arg] = _value(k.value, env, cls, rr)
+                run(callee, sub, depth + 1)
+                for k, v in sub.items():
+                    if k.startswith(r2 + '.'):
+                        env[rr + k[len(r2):]] = v
+            block(fn.node.body)
+        run(init, env)
+        facts = {f'self.{a}': env.get(f'{r}.{a}', _UNKNOWN) for a in LINK_ATTRS + ('indexable',)}
+        missing = [a for a in LINK_ATTRS if facts[f'self.{a}'] is _UNKNOWN]
+        if missing:
+            ctx.undecided(rule, init, ', '.join(missing), f'cannot tell what the constructor leaves in these attributes for {what}')
+        out[sname] = (what, facts)
+    return out
+
+
+def rule_link_state(ctx, prog, m, rule='C07-R7', entries=None):
+    """Typestate of the file link (see the comment above): no operation that can be invoked on a store without an
+    attached file reaches a dereference of file-only state, or an assertion that is false in that state."""
+    cls = m.cls('TrajectoryStore')
+    meths = dict(cls.methods)
+    states = link_states(ctx, prog, m, rule)
+
+    def is_static(fi):
+        return any(norm(d) in ('staticmethod', 'classmethod') for d in fi.node.decorator_list)
+
+    def touches(x, attr):
+        """x stores / mutates self.<attr> (returns the stored value expression, or True for a mutation)"""
+        if isinstance(x, (ast.Assign, ast.AnnAssign, ast.AugAssign)):
+            for t in (x.targets if isinstance(x, ast.Assign) else [x.target]):
+                for y in ([t] if not isinstance(t, (ast.Tuple, ast.List)) else t.elts):
+                    if norm(y) == f'self.{attr}':
+                        return x.value if isinstance(x, (ast.Assign, ast.AnnAssign)) and y is t and x.value is not None else True
+                    if isinstance(y, ast.Subscript) and norm(y.value) == f'self.{attr}':
+                        return True
+        if isinstance(x, ast.Call) and isinstance(x.func, ast.Attribute) and norm(x.func.value) == f'self.{attr}' \
+                and x.func.attr in ('append', 'extend', 'insert', 'update', 'setdefault', '__setitem__', 'add'):
+            return True
+        if isinstance(x, ast.Delete) and any(norm(t) == f'self.{attr}' for t in x.targets):
+            return True
+        return None
+
+    # methods that attach files (store into self._nc / grow self._nc_files), transitively over self-calls
+    attach = set()
+    changed = True
+    while changed:
+        changed = False
+        for name, fi in meths.items():
+            if name in attach:
+                continue
+            for x in walk_no_nested(fi.node):
+                if (isinstance(x, ast.Subscript) and isinstance(x.ctx, ast.Store) and norm(x.value) == 'self._nc') \
+                        or (isinstance(x, ast.Call) and call_name(x) in ('self._nc_files.append', 'self._nc_files.extend',
+                                                                        'self._nc.update', 'self._nc.setdefault',
+                                                                        'self._nc_files.insert')) \
+                        or (isinstance(x, ast.Call) and call_name(x).startswith('self.') and call_name(x)[5:] in attach):
+                    attach.add(name)
+                    changed = True
+                    break
+
+    def attaches(s_) -> bool:
+        for c in calls_in(s_):
+            cn = call_name(c)
+            if cn.startswith('self.') and cn[5:] in attach:
+                return True
+            if cn in ('self._nc_files.append', 'self._nc_files.extend', 'self._nc.update', 'self._nc.setdefault',
+                      'self._nc_files.insert'):
+                return True
+        for x in ast.walk(s_):
+            if isinstance(x, ast.Subscript) and isinstance(x.ctx, ast.Store) and norm(x.value) == 'self._nc':
+                return True
+        return isinstance(s_, ast.Assign) and any(norm(t) == 'self.index_group' for t in s_.targets) \
+            and not (isinstance(s_.value, ast.Constant) and s_.value.value is None)
+
+    # ---- the state's facts hold whenever an operation starts ----------------------------------------------------------
+    # an attribute of the model that an operation can change without attaching files (another value than the one the
+    # constructor left) is not a fact of the state: it is unknown from then on
+    init_only = {f.name for f in closure(prog, [meths['__init__']]) if f.cls is cls and f.name.startswith('_')} \
+        if '__init__' in meths else set()
+    for name, fi in meths.items():
+        if name in attach or name in init_only:
+            continue
+        for x in walk_no_nested(fi.node):
+            if not isinstance(x, (ast.stmt, ast.Call)):
+                continue
+            for a in LINK_ATTRS:
+                v = touches(x, a)
+                if v is None:
+                    continue
+                for sname, (what, facts) in states.items():
+                    cur = facts[f'self.{a}']
+                    if not (isinstance(v, ast.Constant) and not isinstance(cur, _SomeObject) and cur is not _UNKNOWN
+                            and v.value is cur):
+                        facts[f'self.{a}'] = _UNKNOWN
+                        ctx.stats.setdefault(f'{rule}.unstable', []).append(f'{name}: {norm(x)[:50]}')
+
+    # ---- `indexable` is still None while file creation is pending ----------------------------------------------------
+    # it is decided by the first successful addition, which also creates the files: every store of another value than
+    # None lies on paths that leave the state before the method returns, or is undone by a handler that puts a saved
+    # copy back before the exception leaves.  Shown per store; when it cannot be shown the attribute is unknown.
+    def indexable_invariant(facts) -> bool:
+        if facts.get('self.indexable', _UNKNOWN) is not None:
+            return False
+        env = {k: v for k, v in facts.items() if k != 'self.indexable'}
+        for name, fi in meths.items():
+            if name == '__init__':
+                continue
+            sts = [x for x in walk_no_nested(fi.node) if isinstance(x, ast.stmt) and touches(x, 'indexable') is not None]
+            sts = [x for x in sts if not (isinstance(touches(x, 'indexable'), ast.Constant) and touches(x, 'indexable').value is None)]
+            if not sts:
+                continue
+            g = CFG(fi.node)
+
+            def restores(s_):
+                v = touches(s_, 'indexable') if isinstance(s_, ast.stmt) else None
+                if isinstance(v, ast.Name):
+                    d = single_def_value(fi.node, v.id)
+                    return d is not None and norm(d) == 'self.indexable'
+                return False
+
+            def ok_edge(a, b, lab):
+                n = g.nodes[a]
+                if n.kind == 'test' and lab in ('t', 'f'):
+                    t = _truth(n.stmt.test, env, cls)
+                    if t is not None and t != (lab == 't'):
+                        return False
+                if n.kind == 'stmt' and n.stmt is not None and lab != 'e' and (attaches(n.stmt) or restores(n.stmt)):
+                    return False
+                if lab == 'e' and n.kind == 'stmt' and n.stmt is not None and not isinstance(n.stmt, ast.Raise) \
+                        and _in_reraising_handler(n.stmt):
+                    return False        # a clean-up statement that fails itself is not this rule's concern
+                return True
+            live = g._reach(edge_ok=ok_edge)
+            for s_ in sts:
+                if restores(s_):
+                    continue
+                for nid in g.nodes_of(s_):
+                    # (an exception raised by the store itself means it did not happen)
+                    after = [b for b, lab in g.succ[nid] if lab != 'e' and ok_edge(nid, b, lab)]
+                    if nid in live and any(b == x or g.reaches(b, x, edge_ok=ok_edge) for b in after
+                                           for x in (g.exit, g.raise_exit)):
+                        # recorded in the evidence: why `indexable` is not taken as None while creation is pending
+                        ctx.stats[f'{rule}.indexable_not_invariant'] = f'{name}: `{norm(s_)[:60]}` (line {s_.lineno}) can ' \
+                            'leave the method with the store still without a file'
+                        return False
+        return True
+
+    def analyse(fi, sname, killed: frozenset):
+        what, facts = states[sname]
+        g = CFG(fi.node)
+        params = set(fi.params)
+
+        _stored: dict[int, set] = {}
+
+        def stored_attrs(n):
+            if n.id not in _stored:
+                _stored[n.id] = _stored_attrs(n)
+            return _stored[n.id]
+
+        def _stored_attrs(n):
+            out = set()
+            if n.kind != 'stmt' or n.stmt is None:
+                return out
+            for a in facts:
+                attr = a[5:]
+                for x in [n.stmt] + calls_in(n.stmt):
+                    v = touches(x, attr)
+                    if v is None:
+                        continue
+                    same = v is not True and isinstance(v, ast.Constant) and facts[a] is not _UNKNOWN \
+                        and not isinstance(facts[a], _SomeObject) and v.value is facts[a]
+                    if not same:
+                        out.add(a)
+                if any(isinstance(c.func, ast.Attribute) and norm(c.func.value) == a and c.func.attr in ('clear',)
+                       for c in calls_in(n.stmt)) and not (isinstance(facts[a], (dict, tuple, list)) and not facts[a]):
+                    out.add(a)
+            return out
+        kin, _ = g.forward(frozenset(killed), lambda n, st: st | frozenset(stored_attrs(n)), lambda a, b: a | b)
+
+        consts: dict[str, object] = {}
+        certain: set[int] = set()       # nodes whose statement dereferences file-only state that is known to be absent
+
+        def env_at(nid):
+            k = kin.get(nid, frozenset(killed))
+            env = {a: v for a, v in facts.items() if a not in k and v is not _UNKNOWN}
+            env.update(consts)
+            return env
+
+        _edges: dict[tuple, bool] = {}
+
+        def ok_edge(a, b, lab):
+            k = (a, b, lab, len(certain), repr(sorted(consts.items())) if consts else '')
+            if k not in _edges:
+                _edges[k] = _ok_edge(a, b, lab)
+            return _edges[k]
+
+        def _ok_edge(a, b, lab):
+            n = g.nodes[a]
+            s_ = n.stmt
+            if s_ is None:
+                return True
+            env = env_at(a)
+            if n.kind == 'test' and lab in ('t', 'f'):
+                t = _truth(s_.test, env, cls)
+                if t is not None and t != (lab == 't'):
+                    return False
+            if n.kind == 'iter' and lab == 't':
+                v = _value(s_.iter, env, cls)
+                if isinstance(v, (tuple, list, dict, set)) and not v:
+                    return False
+            if n.kind == 'stmt' and lab != 'e':
+                if attaches(s_):
+                    return False
+                if isinstance(s_, ast.Assert) and _truth(s_.test, env, cls) is False:
+                    return False
+                if a in certain:
+                    return False        # the statement fails for certain in this state: nothing after it runs
+            return True
+
+        def defs_in(live):
+            """{local: set of constant values | {_UNKNOWN}} over the statements of the feasible nodes"""
+            out: dict[str, list] = {}
+
+            def put(name, v):
+                out.setdefault(name, []).append(v)
+            for nid in live:
+                n = g.nodes[nid]
+                s_ = n.stmt
+                if s_ is None or n.kind in ('finally', 'dispatch', 'join'):
+                    continue
+                if n.kind == 'stmt':
+                    if isinstance(s_, (ast.Assign, ast.AnnAssign)) and s_.value is not None:
+                        ts = s_.targets if isinstance(s_, ast.Assign) else [s_.target]
+                        for t in ts:
+                            if isinstance(t, ast.Name):
+                                # a constant, or a value the state determines (`linked = self.nc_linked`): the local
+                                # keeps what it was given
+                                k = kin.get(nid, frozenset(killed))
+                                put(t.id, s_.value.value if isinstance(s_.value, ast.Constant) else
+                                    _value(s_.value, {a: v for a, v in facts.items() if a not in k and v is not _UNKNOWN}, cls))
+                            else:
+                                for nme in assigned_names(t):
+                                    put(nme, _UNKNOWN)
+                    else:
+                        for x in walk_no_nested(s_):
+                            if isinstance(x, ast.Name) and isinstance(x.ctx, (ast.Store, ast.Del)):
+                                put(x.id, _UNKNOWN)
+                    for x in walk_no_nested(s_):
+                        if isinstance(x, ast.NamedExpr):
+                            put(x.target.id, _UNKNOWN)
+                elif n.kind == 'iter':
+                    if any(ok_edge(nid, b, lab) for b, lab in g.succ[nid] if lab == 't'):
+                        for nme in assigned_names(s_.target):
+                            put(nme, _UNKNOWN)
+                elif n.kind == 'with':
+                    for it in s_.items:
+                        if it.optional_vars is not None:
+                            for nme in assigned_names(it.optional_vars):
+                                put(nme, _UNKNOWN)
+                elif n.kind == 'except':
+                    if getattr(s_, 'name', None):
+                        put(s_.name, _UNKNOWN)
+                else:
+                    for x in ast.walk(s_) if n.kind in ('match', 'case') else []:
+                        for f in ('name', 'rest'):
+                            if isinstance(getattr(x, f, None), str):
+                                put(getattr(x, f), _UNKNOWN)
+                    for h in ([s_.test] if n.kind == 'test' else []):
+                        for x in walk_no_nested(h):
+                            if isinstance(x, ast.NamedExpr):
+                                put(x.target.id, _UNKNOWN)
+            return out
+
+        # feasible nodes and single-constant locals, to a fixed point (each round can only shrink the feasible set)
+        live = g._reach(edge_ok=ok_edge)
+        for _ in range(6):
+            new = {}
+            for name, vs in defs_in(live).items():
+                if name in params or any(v is _UNKNOWN for v in vs):
+                    continue
+                if isinstance(vs[0], _SomeObject):
+                    continue
+                if all(v is vs[0] or (type(v) is type(vs[0]) and v == vs[0]) for v in vs):
+                    new[name] = vs[0]
+            if new == consts:
+                break
+            consts.clear()
+            consts.update(new)
+            live = g._reach(edge_ok=ok_edge)
+
+        loopvars = set()
+        keyed = {t.id for t, st, how in stores_to(fi.node) if isinstance(t, ast.Name) and getattr(st, 'value', None) is not None
+                 and any(norm(x) in ('self._nc', 'self._nc_files') for x in ast.walk(st.value))}
+        for x in walk_no_nested(fi.node):
+            if isinstance(x, (ast.For, ast.comprehension)) and (any(norm(y) in ('self._nc', 'self._nc_files') for y in ast.walk(x.iter))
+                                                                or (isinstance(x.iter, ast.Name) and x.iter.id in keyed)):
+                loopvars |= {y.id for y in ast.walk(x.target) if isinstance(y, ast.Name)}
+
+        crashes, calls = [], []
+
+        def scan(x, env, nid):
+            """dereferences and self-calls in the parts of x that are evaluated in this state"""
+            if isinstance(x, (ast.FunctionDef, ast.AsyncFunctionDef, ast.Lambda, ast.ClassDef)):
+                return
+            if isinstance(x, ast.IfExp):
+                t = _truth(x.test, env, cls)
+                scan(x.test, env, nid)
+                for pol, br in ((True, x.body), (False, x.orelse)):
+                    if t is None or t == pol:
+                        scan(br, env, nid)
+                return
+            if isinstance(x, ast.BoolOp):
+                for v in x.values:
+                    scan(v, env, nid)
+                    t = _truth(v, env, cls)
+                    if t is not None and t == isinstance(x.op, ast.Or):
+                        break           # short circuit: the rest is not evaluated
+                return
+            if isinstance(x, (ast.ListComp, ast.SetComp, ast.GeneratorExp, ast.DictComp)):
+                scan(x.generators[0].iter, env, nid)
+                v = _value(x.generators[0].iter, env, cls)
+                if isinstance(v, (tuple, list, dict, set)) and not v:
+                    return
+                for i, gen in enumerate(x.generators):
+                    if i:
+                        scan(gen.iter, env, nid)
+                    for c in gen.ifs:
+                        scan(c, env, nid)
+                for y in ([x.key, x.value] if isinstance(x, ast.DictComp) else [x.elt]):
+                    scan(y, env, nid)
+                return
+            if isinstance(x, ast.Subscript) and isinstance(x.ctx, ast.Load) and norm(x.value) == 'self._nc' \
+                    and not (isinstance(x.slice, ast.Name) and x.slice.id in loopvars):
+                crashes.append((x, nid, f'self._nc[{norm(x.slice)}]', 'self._nc is empty there (KeyError)'))
+                if env.get('self._nc', _UNKNOWN) == {} and g.nodes[nid].kind == 'stmt':
+                    certain.add(nid)
+            if isinstance(x, ast.Attribute) and isinstance(x.ctx, ast.Load) and norm(x.value) == 'self.index_group':
+                crashes.append((x, nid, f'self.index_group.{x.attr}', 'self.index_group is None there'))
+                if 'self.index_group' in env and env['self.index_group'] is None and g.nodes[nid].kind == 'stmt':
+                    certain.add(nid)
+            if isinstance(x, ast.Call) and call_name(x).startswith('self.') and call_name(x)[5:] in meths \
+                    and call_name(x).count('.') == 1:
+                calls.append((x, nid, call_name(x)[5:]))
+            for c in ast.iter_child_nodes(x):
+                scan(c, env, nid)
+
+        def scan_live(live):
+            for nid in sorted(live):
+                n = g.nodes[nid]
+                if n.stmt is None or n.kind in ('finally', 'dispatch', 'join', 'except'):
+                    continue
+                env = env_at(nid)
+                heads = {'stmt': [n.stmt], 'test': [getattr(n.stmt, 'test', None)], 'iter': [getattr(n.stmt, 'iter', None)],
+                         'with': [i.context_expr for i in getattr(n.stmt, 'items', [])],
+                         'match': [getattr(n.stmt, 'subject', None)]}.get(n.kind, [])
+                for h in heads:
+                    if h is None:
+                        continue
+                    if isinstance(h, ast.Assert):
+                        if _truth(h.test, env, cls) is False:
+                            why = [f'{k} is {v!r}' for k, v in consts.items() if any(_is_name(y, k) for y in ast.walk(h.test))]
+                            crashes.append((h, nid, f'assert {norm(h.test)}',
+                                            'the assertion is false there'
+                                            + (f' ({", ".join(why)}: the loops over the attached files that would set it do '
+                                               f'not run)' if why else '') + ': AssertionError'))
+                        scan(h.test, env, nid)
+                        continue
+                    scan(h, env, nid)
+
+        # a statement that fails for certain ends its path: to a fixed point (each round can only shrink the feasible set)
+        for _ in range(8):
+            before = set(certain)
+            live = g._reach(edge_ok=ok_edge)
+            del crashes[:], calls[:]
+            scan_live(live)
+            if certain == before:
+                break
+
+        def passed(node_id):
+            """the tests that every feasible path to the node has passed and that have a definite value in this state
+            (why such a store gets there)"""
+            out = []
+            dom = doms()
+            for d in sorted(dom.get(node_id, ()), key=lambda i: g.nodes[i].line):
+                n = g.nodes[d]
+                if n.kind == 'test' and d != node_id:
+                    t = _truth(n.stmt.test, env_at(d), cls)
+                    if t is not None:
+                        out.append((norm(n.stmt.test) if t else f'not ({norm(n.stmt.test)})', n.line))
+            return out
+        _dom = []
+
+        def doms():
+            if not _dom:
+                _dom.append(g.dominators(edge_ok=ok_edge))
+            return _dom[0]
+        return crashes, calls, {nid: kin.get(nid, frozenset(killed)) for nid in live}, passed
+
+    if entries is None:
+        entries = [k for k, v in meths.items() if not is_static(v) and (not k.startswith('_') or (k.startswith('__') and k != '__init__'))]
+    n_bad, examined = 0, set()
+    for sname in states:
+        what, facts = states[sname]
+        if sname == 'creation pending' and not indexable_invariant(facts):
+            facts['self.indexable'] = _UNKNOWN
+        if sname != 'creation pending':
+            facts['self.indexable'] = _UNKNOWN          # decided by the first addition; the state lasts beyond it
+        summ = {}
+        exposed: dict[tuple, list] = {}
+        work = []
+        for e in sorted(entries):
+            if e in meths:
+                exposed[(e, frozenset())] = [(e, None, [])]
+                work.append((e, frozenset()))
+        reported = set()
+        while work:
+            key = work.pop(0)
+            f, killed = key
+            if key not in summ:
+                summ[key] = analyse(meths[f], sname, killed)
+            examined.add(f)
+            crashes, calls, kills, passed = summ[key]
+            for c, nid, callee in calls:
+                k2 = (callee, frozenset(kills.get(nid, killed)))
+                if k2 not in exposed and not is_static(meths[callee]):
+                    exposed[k2] = exposed[key] + [(callee, c.lineno, passed(nid))]
+                    work.append(k2)
+            for x, nid, txt, why in crashes:
+                if (f, id(x)) in reported:
+                    continue
+                reported.add((f, id(x)))
+                n_bad += 1
+                hops = exposed[key]
+                names = [h[0] for h in hops]
+                # the construct to report: where a test let this state through (the guard that is wrong for it), else
+                # the statement that fails
+                let = [(hops[i - 1][0], ln, gs) for i, (nm, ln, gs) in enumerate(hops) if i and gs]
+                own = passed(nid)
+                if own:
+                    let.append((f, x.lineno, own))
+                where, line = (meths[let[-1][0]], let[-1][1]) if let else (meths[f], x.lineno)
+                through = '; '.join(f'in {fn} the test `{t}` (line {tl}) lets such a store through' for fn, ln, gs in let
+                                    for t, tl in gs)
+                tail = ('an index beyond the end is not reported as out of range (IndexError) but crashes' if names[0] == '__getitem__'
+                        else 'the operation fails on a store that has no file yet')
+                ctx.ob(rule, where, f'{txt} reachable without an attached file (via {" → ".join(names)}; {sname})', False,
+                       f'on {what} `{names[0]}` reaches `{txt}` (line {x.lineno} of {f}) with no test that files are attached: '
+                       f'{why}' + (f'; {through}' if through else '') + f' — {tail}', line=line, path=names)
+    ctx.ob(rule, (m.relpath, 'TrajectoryStore'), f'{len(examined)} methods reachable from {len(entries)} entry points in '
+           f'{len(states)} states without a file; {n_bad} unprotected dereference(s) of file-only state', n_bad == 0,
+           'every dereference of self._nc[…] / self.index_group and every assertion about loaded data is behind a test that '
+           'files are attached' if n_bad == 0 else 'see above', nontrivial=False)
+    ctx.floor(rule, len(examined), 10, 'methods examined for the file-link typestate')
+    ctx.stats[f'{rule}.attaching_methods'] = sorted(attach)
+    ctx.stats[f'{rule}.states'] = {k: {a: repr(v) for a, v in f.items()} for k, (w, f) in states.items()}
 
 
 # ======================================================================================================
